@@ -589,6 +589,13 @@ func (q *checker) bcheckAssignment(lhs *a.Expr, op t.ID, rhs *a.Expr) error {
 			}
 		}
 
+	} else if rhs.Mentions(lhs) {
+		// For example, "x -= x". A fact about the old x cannot be rewritten in
+		// terms of the new x and an rhs that was evaluated with the old x.
+		if err := q.facts.dropAnyFactsMentioning(lhs); err != nil {
+			return err
+		}
+
 	} else {
 		// Update any facts involving lhs.
 		if err := q.facts.update(func(x *a.Expr) (*a.Expr, error) {
